@@ -38,7 +38,8 @@ RULES = [
     "marker only when the source derives both PartialEq and Eq (derived equality is structural by construction)",
     "R2 widen visibility of extracted items and their fields to `pub` (Verus open spec fns must see fields)",
     "R3 splice contract clauses between signature and body; name the return value `-> (r: T)`; insert loop invariant/decreases "
-    "clauses in front of the body of the loop selected by ordinal; insert ghost proof blocks (proof { .. } / assert) in front of an anchored statement",
+    "clauses in front of the body of the loop selected by ordinal; insert ghost proof blocks (proof { .. } / assert) in front of an anchored statement; "
+    "splice `-> (name: T) requires .. ensures ..` between the parameter list and the block body of a closure literal selected by ordinal",
     "R4 desugar break-with-value (Verus has none): a `loop` that is the sole tail expression of the function body and contains no nested loop or closure "
     "becomes `let __ret: T; loop { .. }; __ret` with each `break <e>` replaced by `{ __ret = <e>; break; }`; refused (exit 2) if the side condition does not hold",
     "R5 a LALRPOP action expression is wrapped as the body of `fn <rule>_action(tok: &str) -> T` with `<>` replaced by `tok`",
@@ -151,6 +152,7 @@ class Extracted:
     def __init__(self):
         self.items = []  # dicts: kind, source, selector, sha, lines(start,end in unit), name
         self.rewrites = []
+        self.placeholders = {}  # name -> list of binder names (extract_arm `bind`)
 
 
 def _parse_path(spec):
@@ -251,6 +253,23 @@ def _fn_parts(f, istart, hend, iend):
         ret = rest[am + 2:].strip()
     head = sig[:pc + 1]
     return head, ret, where, body
+
+
+def _apply_closures(body, closures, ex, label):
+    """R3 for closure literals: splice `-> (name: T) requires .. ensures ..` between the parameter list and the block body of the k-th
+    closure literal with a block body (`|params| { .. }`) of the function; the closure's text is unchanged."""
+    if not closures:
+        return body
+    m = rsscan.mask(body)
+    found = [x for x in re.finditer(r'\|[^|\n]*\|\s*\{', m)]
+    out = body
+    for k in sorted(closures, reverse=True):
+        if k >= len(found):
+            raise ExtractError(f'{label}: closure #{k} not found (function has {len(found)} block-bodied closures) -- lost anchor')
+        pos = found[k].end() - 1
+        out = out[:pos] + closures[k].rstrip() + '\n' + out[pos:]
+        ex.rewrites.append(f'{label}: contract clauses spliced at closure literal #{k} (R3)')
+    return out
 
 
 def _apply_loops(body, loops_spec, break_to_return, proofs, ex, label, ret_type=None, desugar_for=None):
@@ -398,6 +417,23 @@ def _closure_probe(inner):
     return inner
 
 
+def _param_names(head):
+    """Names of the parameters in a function signature text (receiver skipped; only simple `name: T` / `mut name: T` patterns)."""
+    m = rsscan.mask(head)
+    o = m.find('(')
+    if o < 0:
+        return []
+    c = rsscan.match_close(m, o)
+    names = []
+    for part in _split_top(head[o + 1:c]):
+        part = part.strip()
+        if not part or re.match(r'^(&\s*(\'\w+\s+)?)?(mut\s+)?self\b', part):
+            continue
+        pm = re.match(r'^(?:mut\s+)?((?:r#)?\w+)\s*:', part)
+        names.append(pm.group(1) if pm else '_')
+    return names
+
+
 def extract_fn(repo, header, contract, ex, body_only=False):
     lines = [l.strip() for l in header.strip().splitlines()]
     spec = lines[0]
@@ -420,6 +456,11 @@ def extract_fn(repo, header, contract, ex, body_only=False):
         if m:
             opts.setdefault('assoc', []).append(m.group(1))
             cur = None
+            continue
+        m = re.match(r'^closure\s+(\d+)\s*:\s*(.*)$', l)
+        if m:
+            opts.setdefault('closures', {})[int(m.group(1))] = m.group(2) + '\n'
+            cur = ('closure', int(m.group(1)))
             continue
         m = re.match(r'^desugar_for\s+(\d+)\s+(\w+)$', l)
         if m:
@@ -456,7 +497,9 @@ def extract_fn(repo, header, contract, ex, body_only=False):
             opts['nosig'] = True
             cur = None
             continue
-        if cur and cur[0] == 'loop':
+        if cur and cur[0] == 'closure':
+            opts['closures'][cur[1]] += l + '\n'
+        elif cur and cur[0] == 'loop':
             opts['loops'][cur[1]] += l + '\n'
         elif cur and cur[0] == 'proof':
             opts['proofs'][cur[1]][1] += l + '\n'
@@ -534,10 +577,21 @@ def extract_fn(repo, header, contract, ex, body_only=False):
         head = re.sub(r'\bSelf\b', opts['self_ty'], head)
         if ret:
             ret = re.sub(r'\bSelf\b', opts['self_ty'], ret)
+    # `$p<k>` in a contract stands for the name of the function's k-th parameter (receiver not counted): contracts stay valid when a
+    # parameter is renamed
+    pnames = _param_names(head)
+    if contract and '$p' in contract:
+        def _psub(m):
+            k = int(m.group(1))
+            if k >= len(pnames):
+                raise ExtractError(f'{label}: contract mentions $p{k} but the function has {len(pnames)} parameters -- lost anchor')
+            return pnames[k]
+        contract = re.sub(r'\$p(\d+)', _psub, contract)
     loops_spec = dict(opts['loops'])
     post = _post_as_loop_ensures(contract or '', opts['ret'])
     for k in loops_spec:
         loops_spec[k] = loops_spec[k].replace('@post', post)
+    body = _apply_closures(body, opts.get('closures'), ex, label)
     body2 = _apply_loops(body, loops_spec, opts['break_to_return'], opts['proofs'], ex, label, ret_type=ret, desugar_for=opts.get('desugar_for'))
     if opts['self_ty']:
         body2 = re.sub(r'\bSelf\b', opts['self_ty'], body2)
@@ -597,12 +651,18 @@ def extract_arm(repo, header, ex):
     names = {}
     proofs = []
     cur = None
+    bind_name = None
     for l in lines[1:]:
         if not l:
             continue
         lm = re.match(r'^loop\s+(\d+)\s*:\s*(.*)$', l)
         nm = re.match(r'^name_loop_var\s+(\d+)\s+(\w+)$', l)
         pm = re.match(r'^proof\s+/(.*)/\s*:\s*(.*)$', l)
+        bm_ = re.match(r'^bind\s+(\w+)$', l)
+        if bm_:
+            bind_name = bm_.group(1)
+            cur = None
+            continue
         if pm:
             proofs.append([pm.group(1), pm.group(2) + '\n'])
             cur = ('proof', len(proofs) - 1)
@@ -638,6 +698,12 @@ def extract_arm(repo, header, ex):
     c = rsscan.match_close(body_m, o)
     block = body[o:c + 1]
     label = f'{rel}::{"::".join(sels)}'
+    if bind_name:
+        # `$<bind_name>.<k>` anywhere in the template stands for the k-th variable the arm's pattern binds (so the wrapper function's
+        # parameters and its contract follow a renamed binder)
+        pat_text = body[found.start(1):found.end(1)]
+        binders = [b for b in re.findall(r'(?<![:\w])([a-z_][a-z0-9_]*)\b(?!\s*(?:::|\(|\{))', pat_text) if b not in ('mut', 'ref', 'box', '_', 'if')]
+        ex.placeholders[bind_name] = binders
     # name `_` loop variables
     bm = rsscan.mask(block)
     lps = rsscan.find_loops(bm, 0, len(bm))
@@ -875,5 +941,14 @@ def build_unit(repo, template_text):
             text = extract_fn(repo, arg, contract, ex)
             out.append(text)
     unit = ''.join(out)
+    if ex.placeholders:
+        def _bsub(m):
+            nm, k = m.group(1), int(m.group(2))
+            if nm not in ex.placeholders:
+                return m.group(0)
+            if k >= len(ex.placeholders[nm]):
+                raise ExtractError(f'placeholder ${nm}.{k}: the arm binds only {ex.placeholders[nm]} -- lost anchor')
+            return ex.placeholders[nm][k]
+        unit = re.sub(r'\$(\w+)\.(\d+)', _bsub, unit)
     # record line spans of each extracted fn in the unit for diagnostics mapping (done by caller via markers)
     return unit, ex
